@@ -520,3 +520,165 @@ theorem step (hf : WF f) (lib : Libm) (ins : List Nat) (insQ : List ℚ) (hins :
   all_goals cases hk
 
 end FAVerif.Refine
+
+namespace FAVerif.Refine
+open FAVerif.IR FAVerif.FP FAVerif.FPQ FAVerif.SoftRound
+
+variable {f : Fmt}
+
+/-! ### whole programs -/
+
+lemma evalNodes_prefix (lib : Libm) (ins : List Nat) :
+    ∀ (nodes : List Node) (env envF : Array Nat), evalNodes f lib ins nodes env = some envF →
+      env.size ≤ envF.size ∧ ∀ i, i < env.size → envF[i]? = env[i]? := by
+  intro nodes
+  induction nodes with
+  | nil => intro env envF h; simp only [evalNodes, Option.some.injEq] at h; subst h; exact ⟨le_refl _, fun _ _ => rfl⟩
+  | cons n ns ih =>
+    intro env envF h
+    simp only [evalNodes, Option.bind_eq_bind] at h
+    cases hv : evalNode f lib ins env n with
+    | none => simp [hv] at h
+    | some v =>
+      simp only [hv, Option.bind_some] at h
+      obtain ⟨h1, h2⟩ := ih _ _ h
+      simp only [Array.size_push] at h1 h2
+      refine ⟨by omega, fun i hi => ?_⟩
+      rw [h2 i (by omega), Array.getElem?_push_lt hi, Array.getElem?_eq_getElem hi]
+
+lemma kindsOf_prefix : ∀ (nodes : List Node) (ks ksF : List Bool), kindsOf nodes ks = some ksF →
+    ks.length ≤ ksF.length ∧ ∀ i, i < ks.length → ksF[i]? = ks[i]? := by
+  intro nodes
+  induction nodes with
+  | nil => intro ks ksF h; simp only [kindsOf, Option.some.injEq] at h; subst h; exact ⟨le_refl _, fun _ _ => rfl⟩
+  | cons n ns ih =>
+    intro ks ksF h
+    simp only [kindsOf, Option.bind_eq_bind] at h
+    cases hk : kindStep ks n with
+    | none => simp [hk] at h
+    | some k =>
+      simp only [hk, Option.bind_some] at h
+      obtain ⟨h1, h2⟩ := ih _ _ h
+      simp only [List.length_append, List.length_singleton] at h1 h2
+      refine ⟨by omega, fun i hi => ?_⟩
+      rw [h2 i (by omega), List.getElem?_append_left hi]
+
+lemma inv_push {kinds : List Bool} {env : Array Nat} {envQ : List ℚ} (hinv : Inv f kinds env envQ) {k : Bool} {v : Nat} {q : ℚ}
+    (h : Rv f k v q) : Inv f (kinds ++ [k]) (env.push v) (envQ ++ [q]) := by
+  refine ⟨by simp [hinv.len1], by simp [hinv.len2], ?_⟩
+  intro i k' hk'
+  by_cases hi : i < kinds.length
+  · rw [List.getElem?_append_left hi] at hk'
+    obtain ⟨v0, q0, e1, e2, r⟩ := hinv.rel i k' hk'
+    have hi1 : i < env.size := by rw [← hinv.len1]; exact hi
+    have hi2 : i < envQ.length := by rw [hinv.len2]; exact hi1
+    refine ⟨v0, q0, ?_, ?_, r⟩
+    · rw [Array.getElem?_push_lt hi1]; rw [Array.getElem?_eq_getElem hi1] at e1; exact e1
+    · rw [List.getElem?_append_left hi2]; exact e2
+  · have hge : kinds.length ≤ i := by omega
+    rw [List.getElem?_append_right hge] at hk'
+    have hi0 : i - kinds.length = 0 := by
+      by_contra hne
+      have : 1 ≤ i - kinds.length := by omega
+      rw [List.getElem?_eq_none (by simpa using this)] at hk'; cases hk'
+    rw [hi0] at hk'
+    simp only [List.getElem?_cons_zero, Option.some.injEq] at hk'
+    subst hk'
+    have hie : i = env.size := by have := hinv.len1; omega
+    have hiq : i = envQ.length := by have := hinv.len2; omega
+    refine ⟨v, q, ?_, ?_, h⟩
+    · rw [hie]; simp
+    · rw [hiq]; simp
+
+/-- **Refinement, node lists.** -/
+theorem sim (hf : WF f) (lib : Libm) (ins : List Nat) (insQ : List ℚ) (hins : InsRel f ins insQ) :
+    ∀ (nodes : List Node) (kinds kindsF : List Bool) (env envF : Array Nat) (envQ : List ℚ),
+      Inv f kinds env envQ → kindsOf nodes kinds = some kindsF → evalNodes f lib ins nodes env = some envF →
+      (∀ (i : Nat) (v : Nat), envF[i]? = some v → kindsF[i]? = some false → isFiniteBits f v = true) →
+      ∃ envQF, evalNodesQ f (rne (qf f hf.hp)) insQ nodes envQ = some envQF ∧ Inv f kindsF envF envQF := by
+  intro nodes
+  induction nodes with
+  | nil =>
+    intro kinds kindsF env envF envQ hinv hk he _
+    simp only [kindsOf, Option.some.injEq] at hk
+    simp only [evalNodes, Option.some.injEq] at he
+    subst hk; subst he
+    exact ⟨envQ, rfl, hinv⟩
+  | cons n ns ih =>
+    intro kinds kindsF env envF envQ hinv hk he hfin
+    simp only [kindsOf, Option.bind_eq_bind] at hk
+    simp only [evalNodes, Option.bind_eq_bind] at he
+    cases hks : kindStep kinds n with
+    | none => simp [hks] at hk
+    | some k =>
+      cases hv : evalNode f lib ins env n with
+      | none => simp [hv] at he
+      | some v =>
+        simp only [hks, hv, Option.bind_some] at hk he
+        -- the value of this node sits at index env.size of the final environment
+        have hvF : envF[env.size]? = some v := by
+          have := (evalNodes_prefix lib ins ns _ _ he).2 env.size (by simp)
+          rw [this]; simp
+        have hkF : kindsF[env.size]? = some k := by
+          have := (kindsOf_prefix ns _ _ hk).2 kinds.length (by simp)
+          rw [← hinv.len1, this]; simp
+        have hfv : k = false → isFiniteBits f v = true := by
+          intro hkf; subst hkf; exact hfin env.size v hvF hkF
+        obtain ⟨q, hq, hr⟩ := step hf lib ins insQ hins kinds env envQ hinv n k hks v hv hfv
+        obtain ⟨envQF, h1, h2⟩ := ih _ _ _ _ _ (inv_push hinv hr) hk he hfin
+        refine ⟨envQF, ?_, h2⟩
+        simp only [evalNodesQ, hq, Option.bind_eq_bind, Option.bind_some]
+        exact h1
+
+lemma mapM_rel {kinds : List Bool} {env : Array Nat} {envQ : List ℚ} (hinv : Inv f kinds env envQ) :
+    ∀ (outs : List Nat) (vs : List Nat), outs.mapM (fun k => env[k]?) = some vs →
+      ∃ qs, outs.mapM (fun k => envQ[k]?) = some qs ∧
+        List.Forall₂ (fun (kv : Nat × Nat) (q : ℚ) => ∃ k, kinds[kv.1]? = some k ∧ Rv f k kv.2 q) (outs.zip vs) qs := by
+  intro outs
+  induction outs with
+  | nil => intro vs h; simp at h; subst h; exact ⟨[], by simp, by simp⟩
+  | cons j js ih =>
+    intro vs h
+    simp only [List.mapM_cons, Option.bind_eq_bind] at h
+    cases hv : env[j]? with
+    | none => simp [hv] at h
+    | some v =>
+      cases hr : js.mapM (fun k => env[k]?) with
+      | none => simp [hv, hr] at h
+      | some r =>
+        simp [hv, hr] at h
+        subst h
+        obtain ⟨qs, hq, hall⟩ := ih r hr
+        have hj : j < env.size := by
+          by_contra hc; push Not at hc
+          rw [Array.getElem?_eq_none hc] at hv; cases hv
+        have hjk : j < kinds.length := by rw [hinv.len1]; exact hj
+        obtain ⟨v0, q0, e1, e2, rr⟩ := hinv.rel j kinds[j] (List.getElem?_eq_getElem hjk)
+        rw [hv] at e1; cases e1
+        refine ⟨q0 :: qs, ?_, ?_⟩
+        · simp only [List.mapM_cons, e2, hq, Option.bind_eq_bind, Option.bind_some]; rfl
+        · simp only [List.zip_cons_cons]
+          exact List.Forall₂.cons ⟨kinds[j], List.getElem?_eq_getElem hjk, rr⟩ hall
+
+/-- **Refinement theorem for programs.**  If the bit-exact run of `p` on finite inputs is defined and
+every float-kind node of the run is finite, then the ℚ-run with round-to-nearest-even on the values of
+the inputs is defined, and every output pattern denotes the corresponding rational output (booleans
+as 0/1). -/
+theorem refines (p : Prog) (hf : WF p.fmt) (kinds : List Bool) (hk : kindsOf p.nodes [] = some kinds)
+    (lib : Libm) (ins : List Nat) (insQ : List ℚ) (hins : InsRel p.fmt ins insQ) (env : Array Nat)
+    (he : evalNodes p.fmt lib ins p.nodes #[] = some env)
+    (hfin : ∀ (i : Nat) (v : Nat), env[i]? = some v → kinds[i]? = some false → isFiniteBits p.fmt v = true)
+    (outs : List Nat) (ho : p.eval lib ins = some outs) :
+    ∃ qs, p.evalQ (rne (qf p.fmt hf.hp)) insQ = some qs ∧
+      List.Forall₂ (fun (kv : Nat × Nat) (q : ℚ) => ∃ k, kinds[kv.1]? = some k ∧ Rv p.fmt k kv.2 q) (p.outs.zip outs) qs := by
+  have hinv0 : Inv p.fmt [] #[] [] := ⟨rfl, rfl, fun i k hk => by simp at hk⟩
+  obtain ⟨envQ, h1, h2⟩ := sim hf lib ins insQ hins p.nodes [] kinds #[] env [] hinv0 hk he hfin
+  unfold Prog.eval at ho
+  simp only [he, Option.bind_eq_bind, Option.bind_some] at ho
+  obtain ⟨qs, hq, hall⟩ := mapM_rel h2 p.outs outs ho
+  refine ⟨qs, ?_, hall⟩
+  unfold Prog.evalQ evalQ
+  simp only [h1, Option.bind_eq_bind, Option.bind_some]
+  exact hq
+
+end FAVerif.Refine
